@@ -1,6 +1,6 @@
 PROPS = ["CTV.Props.C19"]
 _PKG = "./internal/witness/cmd/witness/internal/witness/"
-HARNESS = [dict(pkg=_PKG, test="TestVerifC19Merkle")]
+HARNESS = [dict(pkg=_PKG, test="TestVerifC19"), dict(pkg=_PKG, test="TestVerifC19Merkle")]
 RULE = "tbd"
 TRUSTED = []
 ASSUMPTIONS = []
